@@ -20,7 +20,8 @@ ContainerTookScalar(w) == w.mk \in {"coll", "map", "tup"} /\ ScalarArg(w)
 
 Clause(e) ==
   CASE e.ev = "unmarshal" ->
-         (IF e.out.k = "raised" THEN "" ELSE Conf(e.T, e.out.r, Defs, "Conforms", FALSE))
+         \* (events recorded from the repository's own tests carry the table of the classes their annotation mentions)
+         (IF e.out.k = "raised" THEN "" ELSE Conf(e.T, e.out.r, IF "defs" \in DOMAIN e THEN e.defs ELSE Defs, "Conforms", FALSE))
     [] e.ev = "passthrough" ->
          (IF ~Exact(e.T, e.v, Defs) THEN "NOTVALID"                    \* harness gave a non-exact value: skip, counted
           ELSE IF e.out.k = "raised" THEN "PassThrough.raised"
